@@ -1001,10 +1001,11 @@ func (m *Model) SeekSnap(sub, snap string, now time.Time) {
 	for _, d := range s.Dels {
 		e := m.expiry(d, now)
 		if e != -1 || sn.Fuzz[d.Msg.Idx] || d.Origin != nil {
-			// expiry x snapshot seek and forwarded deliveries: outside what the statement pins down
-			if !(d.State == Acked && e == 1) {
-				d.State, d.Fuzzy = Limbo, true
-			}
+			// expiry x snapshot seek and forwarded deliveries: outside what the
+			// statement pins down (the implementation revives a completed delivery
+			// whose retention is over with a fresh retention; "restores exactly the
+			// set" and "never delivered after its retention" both read on it)
+			d.State, d.Fuzzy = Limbo, true
 			continue
 		}
 		after := m.pubCmp(d, sn.T)
